@@ -61,8 +61,9 @@ theorem intConst_same_number (k : Kind) (hk : k.isFloat = false) (v : Int) (hr :
     ∃ n, intConst (.num k) v = .int k n ∧ n = v := by
   cases k <;> simp [Kind.isFloat] at hk <;> simp [intConst, wrap, Kind.isSigned, Kind.bits, inRange] at hr ⊢ <;> omega
 
-/-- the untyped program is the typed one with annotations erased: same opcodes for everything but
-    identifiers (mapEnv), `==` and integer literals — stated on the compile model for the three node forms -/
+/-- how an identifier compiles: one fetch instruction whose opcode depends only on `mapEnv` (typed map
+    environment) and the nil-safe flag, never on the annotation — the identifier case of "typing changes only
+    the opcode chosen"; `==` and integer literals are covered by `typed_untyped_vm` and `intConst_*` -/
 theorem typed_differs_only_at (cfg : CompCfg) (m : Meta) (name : String) (ns : Bool) (p p' : Pool) (k : Nat)
     (h : mkConst (.str name) p = .ok (k, p')) :
     compileNode cfg (.ident m name ns) p =
